@@ -21,6 +21,13 @@ Definition run_keyswitch (ps : list Z) (vs : list (list Z)) : option (list (list
 Definition run_c03 (code : Z) (ps : list Z) (vs : list (list Z)) : option (list (list Z)) :=
   match code with
   | 3001 | 3002 => run_keyswitch ps vs
+  | 3033 =>
+      (* GLWEPacker.combine feeds an input of another radix to glwe_sub, which asserts equal radices: the call that has to
+         combine it with a stored value (calls 2k and 2k+1 both carry a ciphertext) panics *)
+      let mask := x ps 3 in
+      if negb (h_in_b ps =? h_out_b ps) &&
+         existsb (fun k => Z.testbit mask (2 * Z.of_nat k) && Z.testbit mask (2 * Z.of_nat k + 1)) (seq 0 (h_n ps / 2))
+      then None else Some [[1]]
   | _ => Some [[1]]
   end.
 
@@ -145,6 +152,27 @@ Definition oracle_pack (ps : list Z) (vs : list (list Z)) : Z :=
              + round_env P n (h_out_rank ps) (S_out vs) (h_out_b ps) (h_out_size ps) in
   ob (flag ps vs 1 && within P (psub (ph_out ps vs P (obs ps vs 0)) want) env).
 
+(* 3033: GLWEPacker with log_batch = 0: the i-th call (i = 0 .. N-1, in order) puts coefficient 0 of its ciphertext at
+   coefficient bitrev_{log N}(i); calls without a ciphertext leave 0.  The accumulators have the layout of the result. *)
+Fixpoint bitrev_aux (bits i acc : nat) : nat :=
+  match bits with O => acc | S b => bitrev_aux b (i / 2) (2 * acc + i mod 2) end.
+Definition bitrev (bits i : nat) : nat := bitrev_aux bits i 0.
+Definition oracle_packer (ps : list Z) (vs : list (list Z)) : Z :=
+  let P := prec ps in let n := h_n ps in
+  let mask := x ps 3 in
+  let logn := Z.to_nat (Z.log2 (zn n)) in
+  let slots := filter (fun i => Z.testbit mask (zn i)) (seq 0 n) in
+  let cts := v vs 2 in
+  let phs := map (fun k => ph_in ps vs P (nth_glwe n (h_in_size ps) (h_in_rank ps) cts k)) (seq 0 (length slots)) in
+  let want := map (fun u =>
+                 match find (fun q => Nat.eqb (bitrev logn (fst q)) u) (combine slots phs) with
+                 | Some q => nthZ (snd q) 0 | None => 0 end) (seq 0 n) in
+  let ob_ := h_out_b ps in let osz := h_out_size ps in
+  let rnd := round_env P n (h_out_rank ps) (S_out vs) ob_ osz in
+  let lvl := shape_env ps P (2 ^ (ob_ - 1)) (S_out vs) (S_in vs) (zn (h_key_rin ps)) true ob_ osz ob_ osz + 6 * rnd in
+  let env := (2 ^ zn logn - 1) * lvl + 2 * rnd in
+  ob (flag ps vs 1 && within P (psub (ph_out ps vs P (obs ps vs 0)) want) env).
+
 (* 3040: lwe_from_glwe(idx): LWE phase under s_lwe = coefficient idx of the GLWE phase; rows of the key encrypt s_glwe under
    sigma_{-1}(s_lwe || 0) *)
 Definition oracle_lwe_from_glwe (ps : list Z) (vs : list (list Z)) : Z :=
@@ -206,6 +234,7 @@ Definition oracle_c03 (code : Z) (ps : list Z) (vs outs : list (list Z)) : Z :=
   | 3020 | 3021 => oracle_atk_automorphism code ps vs
   | 3030 | 3031 => oracle_trace code ps vs
   | 3032 => oracle_pack ps vs
+  | 3033 => oracle_packer ps vs
   | 3040 => oracle_lwe_from_glwe ps vs
   | 3041 => oracle_glwe_from_lwe ps vs
   | 3042 => oracle_sample_extract ps vs
